@@ -67,6 +67,18 @@ def run(ctx):
             extra.append({"seed": ctx.seed, "jitter": 0.0, "payloads": {"c1": {"flavour": f, "cleanup": 2, "shielded": 2 if f == "trio" else 0}, "c2": {"flavour": f, "cleanup": 1}, "h1": {"flavour": "threading"}, "x1p": {"flavour": f}},
                           "script": [{"op": "adopt", "p": "c1"}, {"op": "adopt", "p": "c2"}, {"op": "adopt", "p": "h1"}, {"op": "accept"}, {"op": "wait_running"}, {"op": "wait_start", "p": "c1"}, {"op": "wait_start", "p": "c2"}, {"op": "wait_start", "p": "h1"},
                                      {"op": "shutdown", "ctx": "thread", "wait": False}, {"op": "sleep", "ms": ms}, {"op": "execute", "p": "x1p", "ctx": "payload:h1", "how": "val:x"}, {"op": "wait_end"}], "shape": "targeted-execute-while-closing"})
+    # an asyncio payload adopted from a thread payload that runs its own private event loop
+    for k in range(2):
+        extra.append({"seed": ctx.seed + k, "jitter": 0.0, "payloads": {"c1": {"flavour": "asyncio"}, "h1": {"flavour": "threading"}, "late": {"flavour": "asyncio"}, "late2": {"flavour": "asyncio"}},
+                      "script": [{"op": "adopt", "p": "c1"}, {"op": "adopt", "p": "h1"}, {"op": "accept"}, {"op": "wait_running"}, {"op": "wait_start", "p": "c1"}, {"op": "wait_start", "p": "h1"},
+                                 {"op": "adopt", "p": "late", "ctx": "ownloop:h1"}, {"op": "wait_start", "p": "late"}, {"op": "seg", "p": "late", "hold": 0.002}, {"op": "seg", "p": "c1", "hold": 0.002},
+                                 {"op": "adopt", "p": "late2", "ctx": "ownloop:h1"}, {"op": "wait_start", "p": "late2"}, {"op": "step", "p": "late2"}, {"op": "polls", "n": 2}], "shape": "targeted-adopt-from-private-loop"})
+    # a long blocking execute() is in flight while coroutine payloads adopt and step
+    for f in scen.FLAVS:
+        extra.append({"seed": ctx.seed, "jitter": 0.0, "payloads": {"c1": {"flavour": "asyncio"}, "t1": {"flavour": "trio"}, "x1p": {"flavour": f}, "late": {"flavour": "threading"}, "late2": {"flavour": "asyncio"}},
+                      "script": [{"op": "adopt", "p": "c1"}, {"op": "adopt", "p": "t1"}, {"op": "accept"}, {"op": "wait_running"}, {"op": "wait_start", "p": "c1"}, {"op": "wait_start", "p": "t1"},
+                                 {"op": "execute", "p": "x1p", "how": "val:x", "slow": 1.6, "wait": False}, {"op": "adopt", "p": "late", "ctx": "payload:c1"}, {"op": "adopt", "p": "late2", "ctx": "payload:t1"},
+                                 {"op": "step", "p": "c1"}, {"op": "step", "p": "t1"}, {"op": "sleep", "ms": 1500}, {"op": "polls", "n": 2}], "shape": "targeted-slow-execute"})
     # many thread payloads block at once, all adopted from inside a coroutine payload
     many = {"h%02d" % i: {"flavour": "threading"} for i in range(1, 37)}
     for f in ("asyncio", "trio"):
